@@ -38,14 +38,14 @@ fn hash_n(seed: u8, i: usize) -> [u8; 32] {
 
 fn build_section(s: &Section, seed: u8, block_version: u32) -> AuxPow {
     let parent_coinbase = match s.parent_cb {
-        0 => Tx { version: 1, segwit: false, inputs: vec![TxIn::coinbase(vec![3, 1, 2, 3, 0xfa, 0xbe, b'm', b'm'])], outputs: vec![TxOut { value: 25, script: script::p2pkh(&script::h20(seed)) }], locktime: 0 },
-        1 => Tx { version: 2, segwit: false, inputs: vec![TxIn::coinbase(vec![0x51; 100])], outputs: vec![TxOut { value: 25, script: vec![0x51; 0xfd] }, TxOut { value: 0, script: script::op_return(b"aux") }], locktime: 7 },
-        3 => Tx { version: 1, segwit: false, inputs: vec![TxIn::coinbase(vec![0x51; 70_000])], outputs: (0..300).map(|k| TxOut { value: k, script: vec![0x51; 40 + (k as usize % 7)] }).collect(), locktime: 1 },
-        4 => Tx { version: 1, segwit: false, inputs: vec![TxIn::coinbase(vec![0x51; 17_000_000])], outputs: (0..70_000).map(|k| TxOut { value: k, script: vec![0x51; 25] }).collect(), locktime: 1 },
+        0 => Tx { version: 1, segwit: false, inputs: vec![TxIn::coinbase(vec![3, 1, 2, 3, 0xfa, 0xbe, b'm', b'm'])], outputs: vec![TxOut { value: 25, script: script::p2pkh(&script::h20(seed)) }], locktime: 0, wide: 0 },
+        1 => Tx { version: 2, segwit: false, inputs: vec![TxIn::coinbase(vec![0x51; 100])], outputs: vec![TxOut { value: 25, script: vec![0x51; 0xfd] }, TxOut { value: 0, script: script::op_return(b"aux") }], locktime: 7, wide: 0 },
+        3 => Tx { version: 1, segwit: false, inputs: vec![TxIn::coinbase(vec![0x51; 70_000])], outputs: (0..300).map(|k| TxOut { value: k, script: vec![0x51; 40 + (k as usize % 7)] }).collect(), locktime: 1, wide: 0 },
+        4 => Tx { version: 1, segwit: false, inputs: vec![TxIn::coinbase(vec![0x51; 17_000_000])], outputs: (0..70_000).map(|k| TxOut { value: k, script: vec![0x51; 25] }).collect(), locktime: 1, wide: 0 },
         _ => {
             let mut i = TxIn::coinbase(vec![3, 9, 9, 9]);
             i.witness = vec![vec![0u8; 32], vec![], vec![1, 2, 3]];
-            Tx { version: 2, segwit: true, inputs: vec![i], outputs: vec![TxOut { value: 25, script: script::witness(0, &script::h20(seed)) }, TxOut { value: 0, script: script::op_return(&[0xaa; 36]) }], locktime: 0 }
+            Tx { version: 2, segwit: true, inputs: vec![i], outputs: vec![TxOut { value: 25, script: script::witness(0, &script::h20(seed)) }, TxOut { value: 0, script: script::op_return(&[0xaa; 36]) }], locktime: 0, wide: 0 }
         }
     };
     AuxPow {
